@@ -499,15 +499,53 @@ def rule_text_not_counted(ctx, crate, rule="R-TEXT-NOT-COUNTED"):
                   "rows of text lines (println output) enter the count that the next draw erases", cfg)
 
 
-def height_guard_edges(b):
-    """(switch_bb, fits_target, overflow_target) for switches comparing against TermLike::height()."""
+def height_guard_edges(b, acc=()):
+    """(switch_bb, term, slice) for switches comparing (painted rows + next line's rows) against TermLike::height()."""
     out = []
+    acc_bbs = {c.bb for c in acc}
+    acc_locals = set()
+    for c in acc:
+        for tl, tp in b.ref_origins().get(operand_local(c.args[0]), ()):
+            acc_locals.add(tl)
     for sb, t in b.switches():
         if t["op"]["k"] not in ("copy", "move"):
             continue
         sl = b.slice(t["op"], at=sb)
-        if any(c.callee.get("trait") == K.TERMLIKE and K.meth(c.generic) == "height" for c in sl.calls) and \
-                sl.has_call(r"draw_target::LineType::wrapped_height"):
+        if not any(c.callee.get("trait") == K.TERMLIKE and K.meth(c.generic) == "height" for c in sl.calls):
+            continue
+        # the compared quantity must be (rows painted so far) + (rows of the line about to be painted): a value
+        # produced by an additive operation that is not the accumulation itself and one of whose operands is
+        # *directly* the current line's wrapped_height result
+        ok = False
+        refs = b.ref_origins()
+        seen = set()
+        work = [operand_local(t["op"])]
+        while work:
+            l = work.pop()
+            if l is None or l in seen:
+                continue
+            seen.add(l)
+            for tl, tp in refs.get(l, ()):
+                work.append(tl)
+            for d in b.defs().get(l, ()):
+                if not b.def_reaches(d, sb):
+                    continue
+                if d["kind"] == "assign" and d["rv"]["k"] in ("use", "cast", "ref", "copyderef"):
+                    work.append(operand_local(d["rv"].get("op")) if d["rv"]["k"] in ("use", "cast") else d["rv"]["place"]["l"])
+                elif d["kind"] == "call":
+                    c = d["call"]
+                    if c.matches(r"std::cmp::PartialOrd::(gt|ge|lt|le)", r"std::cmp::PartialEq::(eq|ne)", r"std::convert::Into::into", r"std::convert::From::from"):
+                        for a_ in c.args:
+                            work.append(operand_local(a_))
+                    elif c.matches(*VL_ADDITIVE) and c.bb not in acc_bbs:
+                        if any(b.slice_args(c, [k], through_calls=False).has_call(r"draw_target::LineType::wrapped_height") for k in range(len(c.args))):
+                            ok = True
+                elif d["kind"] == "callmut":
+                    c = d["call"]
+                    if c.matches(*VL_ADDITIVE) and c.bb not in acc_bbs and l not in acc_locals:
+                        if any(b.slice_args(c, [k], through_calls=False).has_call(r"draw_target::LineType::wrapped_height") for k in range(1, len(c.args))):
+                            ok = True
+        if ok:
             out.append((sb, t, sl))
     return out
 
@@ -518,7 +556,7 @@ def rule_height_guard(ctx, crate, rule="R-HEIGHT-GUARD"):
     if not info:
         return
     b, p, commits, acc = info
-    guards = height_guard_edges(b)
+    guards = height_guard_edges(b, acc)
     paints = line_paint_calls(b)
     ctx.floor(rule, len(paints), 1, cfg, "per-line write_str calls in the paint loop")
     if not paints:
